@@ -1379,7 +1379,14 @@ class Engine(CondMixin, Interp):
         # flags the constructor acts on): follow it so that its guards become facts
         if fi.name == "__init__":
             return False
-        return self.own_helper(fi) or (fi.cls is not None and fi.cls.qname in self.user_q)
+        if self.own_helper(fi) or (fi.cls is not None and fi.cls.qname in self.user_q):
+            return True
+        # a pure STRUCTURAL query of the data model that the interpreter has no native model for (it looks at degrees /
+        # neighbours and returns nodes or edges): the guards that justify a sub-edit may have been moved there
+        if fi.cls is not None and self.P.is_subclass(fi.cls.qname, "Tracks") and not fi.name.startswith("_"):
+            body = norm(fi.node)
+            return any(k in body for k in ("out_degree(", "in_degree(", ".predecessors(", ".successors(", "has_edge("))
+        return False
 
     # ---------------- PathWalker hooks
     def absorb(self, kept: PState, dropped: PState) -> None:
